@@ -688,6 +688,24 @@ fn mutants(base: &Spend, kind: &str, m: &MutCtx, rng: &mut Rng, budget: usize) -
             }
         }
     }
+    // scriptSig shape, every output type: extra pushes (empty, 01, junk) in front of and behind the
+    // existing ones.  BIP141: the scriptSig of a P2SH-wrapped witness program is exactly the push of
+    // the redeem script, the scriptSig of a native witness program (wsh, wpkh, tr) is empty.
+    for (name, extra) in [("empty", vec![]), ("01", vec![1u8]), ("junk", vec![0xabu8, 0xcd, 0xef])] {
+        let mut front = vec![extra.clone()];
+        front.extend(items.iter().cloned());
+        let mut back = items.clone();
+        back.push(extra.clone());
+        for (pos, it) in [("prepend", front), ("append", back)] {
+            if pos == "append" && items.is_empty() {
+                continue; // same bytes as the prepend form
+            }
+            let s2 = Spend { mkind: format!("s:ssig-{}-{}", pos, name), base: "mut", wit: base.wit.clone(), ssig: build_ssig(&it) };
+            if seen.insert((s2.wit.clone(), s2.ssig.clone())) {
+                out.push(s2);
+            }
+        }
+    }
     // a different script in place of the committed one: OP_1 with nothing to consume
     match kind {
         "wsh" | "shwsh" => out.push(Spend { mkind: "script-true".into(), base: "mut", wit: vec![vec![0x51]], ssig: base.ssig.clone() }),
